@@ -691,7 +691,7 @@ func main() {
 	cfg = vh.ParseFlags("C18")
 	rep = vh.NewReport(cfg)
 	rep.Rule = "comparator pairs over a structured hash/amount/script pool (observed through IsSorted on two-element transactions); all tuples of <= 4 and all permutations of random multisets of 5..6 inputs/outputs over small key alphabets with ties; txids differing in one byte at every position and in two bytes that disagree at every pair of positions; amounts next to each other at every binary size and sign; scripts equal up to every position of the usual lengths and standard script shapes; random transactions up to hundreds of inputs/outputs with few distinct keys; the same TxIn/TxOut objects holding other contents on a later call; a comparator pair is non-trivial when the keys differ, a transaction when it has >= 2 elements and is out of order or holds unequal elements with equal keys; distinct by content"
-	cases = vh.NewCases(cfg, "Run.Run_C18", 300)
+	cases = vh.NewCases(cfg, "Run.Run_C18", 150) // small shards: a 300-case shard of large transactions needs 1 GB in coqc
 	rng := vh.NewRNG(cfg.Seed)
 	wide := cfg.Search || cfg.Thorough()
 	pool := hashPool()
